@@ -2,7 +2,7 @@
    ONLY statements: each theorem is closed by `exact` of a lemma proved elsewhere and followed by Print Assumptions. *)
 From Coq Require Import ZArith NArith List Bool Lia Permutation FMapPositive String.
 Import ListNotations.
-Require Import Base Strings Builtins Interp Machine Events Progress Num NumProofs Lex ParseProofs LinkKinds LinkExcept LinkErr.
+Require Import Base Strings Builtins Interp Machine Events Progress Num NumProofs Lex ParseProofs LinkKinds LinkExcept Spec HeapFacts Refine1 Refine2 Refine3 Refine4 RunG Exc LinkErr.
 
 Theorem never_stuck fuel prog stdin k :
   fst (run_main fuel prog stdin) <> OStuck k.
@@ -48,4 +48,25 @@ Theorem non_io_is_the_source_union v :
   in_union GenKinds.gen_NonIOStrictValue v = negb (is_delayed v) && negb (is_io v).
 Proof. exact (LinkKinds.non_io_is_the_source_union v). Qed.
 Print Assumptions non_io_is_the_source_union.
+
+(* a failure raised by a built-in IS an exception value carrying its class code list and the source location of the call *)
+Theorem builtin_error_contents code sp :
+  e_vals (mkerr code sp) = [VInt 5; VInt code] /\ e_spans (mkerr code sp) = [sp].
+Proof. exact (Exc.builtin_error_contents code sp). Qed.
+Print Assumptions builtin_error_contents.
+
+(* ... and interceptable: the handler of ㅅㄷ receives exactly that exception value *)
+Theorem try_handler_gets_it (rec : list positive -> heap -> world -> task -> out) sp a hd ip h w h' w' e d :
+  rec ip h w (TComp (proc_body (PDeep a))) = Done h' w' (inr e) d -> unmodelled e = false ->
+  (runG rec) value ip h w (bi_try sp [a; hd]) =
+  upddG ((runG rec) value ip h' w' (f <- functional sp hd false ;; call (PApply f sp [VErr (e_spans e) (e_vals e)]))) d.
+Proof. exact (Exc.try_handler_gets_it rec sp a hd ip h w h' w' e d). Qed.
+Print Assumptions try_handler_gets_it.
+
+(* ... from any depth: a failure inside a call propagates as the same exception value *)
+Theorem raise_propagates_call (rec : list positive -> heap -> world -> task -> out) A (k:value -> Comp A) ip h w p h' w' e d :
+  rec ip h w (TComp (proc_body p)) = Done h' w' (inr e) d ->
+  (runG rec) A ip h w (Call p k) = DoneG h' w' (inr e) d.
+Proof. exact (Exc.raise_propagates_call rec A k ip h w p h' w' e d). Qed.
+Print Assumptions raise_propagates_call.
 
